@@ -1,7 +1,7 @@
 (* C18 property theorems: ONLY statements closed by `exact`, each followed by Print Assumptions.
    Model: C18_Model.v (literal transcription of path.cc / stringutility.hh); spec: C18_Spec.v. *)
 From Coq Require Import List Arith Bool Ascii.
-From DuneV Require Import Params_gen C18_Model C18_Spec C18_Proofs_Str C18_Proofs_Passes C18_Proofs_Pass4 C18_Proofs C18_Proofs_Tables C18_Proofs_Pretty.
+From DuneV Require Import Params_gen C18_Model C18_Spec C18_Proofs_Str C18_Proofs_Passes C18_Proofs_Pass4 C18_Proofs C18_Proofs_Tables C18_Proofs_Pretty C18_Proofs_Rel.
 Import ListNotations.
 Local Open Scope char_scope.
 
@@ -61,22 +61,16 @@ Theorem C18_pretty_current_dir : forall p d, c18_canon p = [] -> c18_prettyPath 
 Proof. exact c18_pretty_current_dir. Qed.
 Print Assumptions C18_pretty_current_dir.
 
-(* relativePath.  Full statement intended (DESIGN C18_relative_inverse), for all strings base, p:
-     (forall r, c18_relativePath base p = C18_Ok r -> c18_denote (c18_concatPaths base r) = c18_denote p)
-     /\ (c18_relativePath base p = C18_NotImplemented <-> c18_spec_rel_defined base p = false).
-   Proved here: exactly that (plus: the result is in normal form, no fuel exhaustion) for ALL PAIRS of strings over
-   {'/','.','a','b'} of length <= 4 (116 281 pairs; bound in the statement).  Missing for the unbounded statement:
-   the lemma that the character-level common prefix + back-up of two rendered locations is the rendered
-   common component prefix.  Since processPath is proved equal to the rendering of the denotation for all
-   strings (C18_bridge), the remaining gap is that one lemma about c18_common_len/c18_backup on c18_join. *)
-Theorem C18_relative_inverse_partial : forall a b,
-  In a (c18_strings c18_path_alpha 4) -> In b (c18_strings c18_path_alpha 4) ->
-  (forall r, c18_relativePath a b = C18_Ok r ->
-     c18_denote (c18_concatPaths a r) = c18_denote b /\ c18_nf r = true /\ c18_spec_rel_defined a b = true)
-  /\ (c18_relativePath a b = C18_NotImplemented -> c18_spec_rel_defined a b = false)
-  /\ c18_relativePath a b <> C18_OutOfFuel.
-Proof. exact c18_relative_inverse_bounded. Qed.
-Print Assumptions C18_relative_inverse_partial.
+(* relativePath, for ALL strings base, p: a reported relative path, concatenated back onto the base,
+   denotes the target and is in normal form; an error is reported exactly when the absoluteness differs or
+   the sanitised base has more leading ".." than the target; the fuel of processPath is never exhausted. *)
+Theorem C18_relative_inverse : forall base p,
+  (forall r, c18_relativePath base p = C18_Ok r ->
+     c18_denote (c18_concatPaths base r) = c18_denote p /\ C18_NormalForm r)
+  /\ (c18_relativePath base p = C18_NotImplemented <-> c18_spec_rel_defined base p = false)
+  /\ c18_relativePath base p <> C18_OutOfFuel.
+Proof. exact c18_relative_inverse. Qed.
+Print Assumptions C18_relative_inverse.
 
 (* prefix / suffix tests are the plain definitions *)
 Theorem C18_prefix_suffix : forall s x,
@@ -118,3 +112,6 @@ Example C18_example_pretty :   (* "a/../../b//" as a directory -> "../b/" ; "/a/
   c18_prettyPath ["a";"/";".";".";"/";".";".";"/";"b";"/";"/"] true = C18_Ok [".";".";"/";"b";"/"]
   /\ c18_prettyPath1 ["/";"a";"/";".";"."] = C18_Ok ["/"].
 Proof. vm_compute; split; reflexivity. Qed.
+Example C18_example_relative_sweep :   (* the former bounded theorem, kept as a cross-check of spec oracle vs model: all 341^2 pairs *)
+  forallb (fun a => forallb (fun b => c18_rel_check a b) (c18_strings c18_path_alpha 4)) (c18_strings c18_path_alpha 4) = true.
+Proof. exact c18_relative_sweep. Qed.
